@@ -550,27 +550,21 @@ impl Expression {
             return Err(Error::Sort);
         }
 
-        let expr = Expression::shr(lhs.clone(), rhs.clone())?;
-
-        let mask = if rhs.bits() <= 64 {
-            Expression::shl(
-                expr_const(0xffff_ffff_ffff_ffff, rhs.bits()),
-                Expression::sub(expr_const(rhs.bits() as u64, rhs.bits()), rhs)?,
-            )?
+        let ones: Expression = if lhs.bits() <= 64 {
+            expr_const(0xffff_ffff_ffff_ffff, lhs.bits())
         } else {
-            Expression::shl(
-                const_(0, rhs.bits()).sub(&const_(1, rhs.bits()))?.into(),
-                Expression::sub(expr_const(rhs.bits() as u64, rhs.bits()), rhs)?,
-            )?
+            const_(0, lhs.bits()).sub(&const_(1, lhs.bits()))?.into()
         };
 
-        Expression::or(
-            expr,
-            Expression::ite(
-                Expression::cmplts(lhs.clone(), expr_const(0, lhs.bits()))?,
-                mask,
-                expr_const(0, lhs.bits()),
+        // For a negative value shift its complement, so the vacated bits (all
+        // of them once the amount reaches the width) are filled with ones.
+        Expression::ite(
+            Expression::cmplts(lhs.clone(), expr_const(0, lhs.bits()))?,
+            Expression::xor(
+                Expression::shr(Expression::xor(lhs.clone(), ones.clone())?, rhs.clone())?,
+                ones,
             )?,
+            Expression::shr(lhs, rhs)?,
         )
     }
 
